@@ -15,13 +15,6 @@ import (
 
 // genExtraFacts: arity wiring of the generated API (C14), template equality (C14), mutex
 // regions of the filter types (C13), event order in the world operations (C09).
-func genExtraFacts(p *pkgFiles, repo string, out *strings.Builder) {
-	genWiring(p, out)
-	genTemplateEquality(repo, out)
-	genMutexRegions(p, out)
-	genEventOrder(p, out)
-}
-
 func letterIdx(s string) int { return int(s[0] - 'A') }
 
 // wiring facts: every place where a type parameter letter, a storage/column letter and an ids
